@@ -342,6 +342,58 @@ pub fn run(ctx: &Ctx, rep: &mut Report) {
             Ok(Err(e)) => rep.violation("nondeterministic_output", "compile(system)", &format!("second compilation failed: {:?}", e), "", scenario("")),
             Err(p) => rep.skipped_panic(&p, json!({"world": wi, "stage": "recompile"})),
         }
+        // one builder compiled twice (a scratch run first, say), and a sink that accepts only part of every buffer it is
+        // handed (the Write contract allows that): the same bytes every time
+        if wi % 4 == 3 {
+            struct Chunky {
+                data: Vec<u8>,
+                max: usize,
+            }
+            impl std::io::Write for Chunky {
+                fn write(&mut self, buf: &[u8]) -> std::io::Result<usize> {
+                    let n = buf.len().min(self.max);
+                    self.data.extend_from_slice(&buf[..n]);
+                    Ok(n)
+                }
+                fn flush(&mut self) -> std::io::Result<()> {
+                    Ok(())
+                }
+            }
+            let max = *rng.pick(&[1usize, 7, 509, 4096]);
+            let r = guard(|| -> Result<(Vec<u8>, Vec<u8>, Vec<u8>), String> {
+                use sudachi::dic::build::DictBuilder;
+                let mut b = DictBuilder::new_system();
+                b.set_compile_time(std::time::UNIX_EPOCH + std::time::Duration::from_secs(env::FIXED_TIME_SECS));
+                b.set_description(env::DESCRIPTION);
+                b.read_conn(world.matrix_text.as_bytes()).map_err(|e| format!("{:?}", e))?;
+                b.read_lexicon(world.sys_csv.as_bytes()).map_err(|e| format!("{:?}", e))?;
+                b.resolve().map_err(|e| format!("{:?}", e))?;
+                let mut first = Vec::new();
+                b.compile(&mut first).map_err(|e| format!("{:?}", e))?;
+                let mut second = Vec::new();
+                b.compile(&mut second).map_err(|e| format!("second compile: {:?}", e))?;
+                let mut third = Chunky { data: Vec::new(), max };
+                b.compile(&mut third).map_err(|e| format!("compile into a sink taking {} bytes per call: {:?}", max, e))?;
+                Ok((first, second, third.data))
+            });
+            match r {
+                Ok(Ok((a, b, c))) => {
+                    rep.count("repeated_compilations_of_one_builder", 1);
+                    if a != world.sys_bytes || b != a {
+                        rep.violation("nondeterministic_output", "compile(system)", &format!("compiling the same builder twice gives {} and {} bytes (a new builder: {})", a.len(), b.len(), world.sys_bytes.len()), "", scenario("same builder twice"));
+                        world_ok = false;
+                    } else if c != a {
+                        rep.violation("nondeterministic_output", "compile(system)", &format!("a sink that takes at most {} bytes per write call received {} bytes that differ from the {} written to a Vec", max, c.len(), a.len()), "", scenario("chunking sink"));
+                        world_ok = false;
+                    }
+                }
+                Ok(Err(e)) => {
+                    rep.violation("nondeterministic_output", "compile(system)", &format!("the inputs compile with a new builder, but: {}", clip(&e, 200)), "", scenario("same builder twice / chunking sink"));
+                    world_ok = false;
+                }
+                Err(p) => rep.skipped_panic(&p, json!({"world": wi, "stage": "repeated compile"})),
+            }
+        }
         // the same rows with other line conventions (no line break after the last line, CR LF, blank lines in the matrix
         // text) are the same inputs: same bytes
         if wi % 4 == 2 {
